@@ -382,7 +382,8 @@ def run_k2s(chk, n_tus, cases_per_tu, scripts_per_case, depth_range=(0, 4), cfg=
                 meta.append((case, pre, sc))
         iout = vlib.run_impl_lines(exe, ilines, chunk=400)
         mout = model_run(mlines)
-        for (case, pre, sc), io, mo, il in zip(meta, iout, mout, ilines):
+        bad = []
+        for n, ((case, pre, sc), io, mo, il) in enumerate(zip(meta, iout, mout, ilines)):
             stats["scripts"] += 1
             toks = sc.split()
             nontriv = bool(pre) or "S" in toks or "A" in toks or " error " in io or any(t[0] == "C" and ":e" in t for t in toks)
@@ -407,13 +408,14 @@ def run_k2s(chk, n_tus, cases_per_tu, scripts_per_case, depth_range=(0, 4), cfg=
                     chk.sample({"case": case_model(case), "prestop": pre, "script": sc, "trace": io[:300]}, limit=8)
                 continue
             chk.cov["disagreements_checked"] += 1
-            # classify against the as-written model: the two known defects get their own keys
-            aw = model_run(["scalc as_written %d %s | %s" % (pre, case_model(case), sc)])[0]
+            bad.append((n, crashed, mon, ci, cm))
+        if not bad:
+            continue
+        # classify against the as-written model (one batch): the known defects get their own keys
+        aws = model_run(["scalc as_written %d %s | %s" % (meta[n][1], case_model(meta[n][0]), meta[n][2]) for n, *_ in bad])
+        for (n, crashed, mon, ci, cm), aw in zip(bad, aws):
+            (case, pre, sc), io, mo, il = meta[n], iout[n], mout[n], ilines[n]
             ks = "+".join(sorted(set(kinds(case[1])) & set(UN)))
-            rec = {"kind": "k2s", "case": case_model(case), "cpp": case_cpp(case), "prestop": pre, "script": sc,
-                   "impl": io, "model": mo, "model_as_written": aw, "monitor": list(mon) if mon else None,
-                   "obligation": "K2-stream correspondence SCalc.exec vs the real stream algorithms + direct monitors",
-                   "replay": "echo '%s' | %s" % (il, exe)}
             awe = aw.partition(" # ")[0].split(";")
             aw_nouaf = ";".join(x for x in awe if not x.startswith("uaf ")) + " # " + aw.partition(" # ")[2]
             if not crashed and canon(aw_nouaf) == ci and "tu" in ks and canon(aw_nouaf) != cm:
@@ -422,15 +424,25 @@ def run_k2s(chk, n_tus, cases_per_tu, scripts_per_case, depth_range=(0, 4), cfg=
                 key, txt = KEY_F9, "stop requested inside stop_immediately's callback registration"
             elif "uaf 1" in awe:
                 key, txt = KEY_F14, "cleanup error of take_until passed through stop_immediately's cleanup receiver"
+            elif "tu" in ks and canon(aw_nouaf) != cm:
+                # the run goes through trigger_receiver::set_done: the wrong operation state is destroyed
+                # (possibly while still running), what follows is undefined
+                key, txt = KEY_F2, "run passes take_until's trigger-cleanup-done path (wrong op-state destroyed)"
             elif "uaf 2" in awe:
                 key, txt = KEY_F15, "completion passed through type_erased_stream's receiver wrappers (miscompiled at -O1)"
             elif mon:
                 key, txt = "k2s/monitor/%s/%s" % (mon[0], ks), mon[1]
             else:
                 key, txt = "k2s/corr/%s" % ks, ""
+            if any(v[0] == key for v in chk.violations):
+                continue
+            rec = {"kind": "k2s", "key": key, "case": case_model(case), "cpp": case_cpp(case), "prestop": pre, "script": sc,
+                   "impl": io, "model": mo, "model_as_written": aw, "monitor": list(mon) if mon else None,
+                   "obligation": "K2-stream correspondence SCalc.exec vs the real stream algorithms + direct monitors",
+                   "replay": "echo '%s' | %s" % (il, exe)}
             rp = chk.replay_file("k2s_%s" % hashlib.sha256((key + case_model(case) + sc).encode()).hexdigest()[:10], rec)
-            chk.violation(key, rp, text="%s | pre=%d %s | %s | impl=%s | model=%s" % (
-                case_model(case), pre, sc, txt, ci[:240], cm[:240]))
+            chk.violation(key, rp, text="%s | %s | pre=%d %s | %s | impl=%s | model=%s" % (
+                key, case_model(case), pre, sc, txt, ci[:240], cm[:240]))
     stats["distinct_traces"] = len(distinct)
     return stats
 
